@@ -251,6 +251,9 @@ type GstEvents struct {
 	// Resp builds the response message returned by OnRequestReceived / the message returned by OnDataQueued
 	// when the invocation's HMsg is "resp".
 	RespTid int64
+	// Gate, when set, is called (outside the log mutex) after a handler call was recorded and before it returns:
+	// a test may park the calling goroutine there (the adapter's hook is then "in the handler").
+	Gate func(call string, c GstChid, inv *GstInv)
 }
 
 func NewGstEvents(a *GstAttrib) *GstEvents { return &GstEvents{A: a, RespTid: 2000} }
@@ -265,7 +268,11 @@ func (e *GstEvents) rec(call string, chid datatransfer.ChannelID, x string, n in
 	if !e.closed {
 		e.calls = append(e.calls, GstHCall{Seq: e.A.Next(), T: time.Now().UnixMilli(), Inv: id, Src: src, Call: call, C: GstChidOf(chid), X: x, N: n})
 	}
+	g := e.Gate
 	e.mu.Unlock()
+	if g != nil {
+		g(call, GstChidOf(chid), inv)
+	}
 	return inv
 }
 
